@@ -7,7 +7,7 @@
 //
 // ASSUMPTIONS of this slice
 //  A-map    env/network_new_shim.vs `StdMap`: a std HashMap that a fragment only iterates; `values()` yields
-//           the value of every entry exactly once in some order (=> the map is finite); `len()` = #entries.
+//           the value of every entry exactly once in some order; `len()` = #entries.
 //  A-iter   env/seqiter.vs `SeqIter::map/sum/collect`; shim additions `SeqIter<u32>::max` (None iff empty,
 //           else the maximum), `VSum<usize>`, `VSum<u32>` (`sum_req`: the total fits), `collect()` into a
 //           std HashMap (keys = first components, value = second component of a pair with that key).
@@ -24,6 +24,7 @@
 //           every location of `loc` with the captured `vehicle_upper_limit` / `allowed_vehicle_types`.
 //  A-wf     VehicleTypes: `ids_sorted` lists exactly the keys of `vehicle_types` (established by
 //           VehicleTypes::new, not under contract here).
+#![feature(allocator_api)]
 use vstd::prelude::*;
 use std::ops::Add;
 use std::ops::Sub;
@@ -38,6 +39,7 @@ verus! {
 //@include env/model_types.vs
 //@include env/broadcast_model.vs
 //@include env/model_network_types.vs
+//@include env/model_spec.vs
 //@include env/seqiter.vs
 //@include env/sums.vs
 //@include env/network_new_shim.vs
@@ -111,7 +113,6 @@ impl VehicleTypes {
 //@sig
     ensures
         // the items sum up to the number of service trips of the instance, whatever the order of values()
-        service_trips@.dom().finite(),
         isum(r@.map_values(|x: usize| x as int)) == total_len(service_trips@),
 //@first
         broadcast use lemma_sum_enum;
@@ -130,8 +131,15 @@ impl VehicleTypes {
         // exact: the largest formation limit over all vehicle types, a type without limit counting as 1;
         // 1 if there is no vehicle type
         vehicle_types.ids_sorted@.len() == 0 ==> r == 1,
-        forall|k: VehicleTypeIdx| vehicle_types.vehicle_types@.contains_key(k) ==> #[trigger] vehicle_types.fc_or_1(k) <= r,
-        vehicle_types.ids_sorted@.len() > 0 ==> exists|k: VehicleTypeIdx| vehicle_types.vehicle_types@.contains_key(k) && #[trigger] vehicle_types.fc_or_1(k) == r,
+        forall|i: int| 0 <= i < vehicle_types.ids_sorted@.len() ==> vehicle_types.fc_or_1(#[trigger] vehicle_types.ids_sorted@[i]) <= r,
+        vehicle_types.ids_sorted@.len() > 0 ==> exists|i: int| 0 <= i < vehicle_types.ids_sorted@.len() && #[trigger] vehicle_types.fc_or_1(vehicle_types.ids_sorted@[i]) == r,
+//@first
+        broadcast use lemma_touch_same_index;
+        proof {
+            assert forall|i: int| 0 <= i < vehicle_types.ids_sorted@.len() implies vehicle_types.vehicle_types@.contains_key(#[trigger] vehicle_types.ids_sorted@[i]) by {
+                assert(vehicle_types.ids_sorted@.contains(vehicle_types.ids_sorted@[i]));
+            }
+        }
 //@end
 
 //@frag model/src/network.rs Network::new : let overflow_capacity as frag_overflow_capacity
@@ -163,7 +171,7 @@ pub open spec fn need_within_limits(trips: Map<VehicleTypeIdx, Vec<ServiceTrip>>
 }
 /// what the three fragments of Network::new guarantee (their `ensures`, connected by the pinned plumbing)
 pub open spec fn overflow_fragments(trips: Map<VehicleTypeIdx, Vec<ServiceTrip>>, vts: VehicleTypes, n: usize, m: VehicleCount, cap: VehicleCount) -> bool {
-    &&& trips.dom().finite() && n as int == total_len(trips)          // frag_service_trip_counts + `.sum::<usize>()`
+    &&& n as int == total_len(trips)          // frag_service_trip_counts + `.sum::<usize>()`
     &&& (forall|k: VehicleTypeIdx| vts.vehicle_types@.contains_key(k) ==> #[trigger] vts.fc_or_1(k) <= m)  // frag_max_formation_count
     &&& m >= 1
     &&& cap as int == n * m                                            // frag_overflow_capacity (under its ASSUMED precondition)
@@ -227,11 +235,11 @@ pub proof fn lemma_overflow_depot_can_host_every_vehicle(trips: Map<VehicleTypeI
 //@sig
     requires
         // ASSUMED: the instance has at most u32::MAX service trips (node indices are u16 anyway)
-        service_trips@.dom().finite() ==> total_len(service_trips@) <= u32::MAX,
+        total_len(service_trips@) <= u32::MAX,
     ensures
         r as int == total_len(service_trips@), // @obl C17.default_depots.capacity_covers_all_trips
 //@first
-        broadcast use lemma_sum_enum;
+        broadcast use {lemma_sum_enum, lemma_enum_len_le_total};
 //@end
 
 //@skeleton model/src/json_serialisation/mod.rs fn create_depots : let allowed_vehicle_types; closure map#1 = d59919af68034836
@@ -249,7 +257,7 @@ pub proof fn lemma_overflow_depot_can_host_every_vehicle(trips: Map<VehicleTypeI
         forall|id: IdType| vehicle_type_lookup@.contains_key(id) ==> r@.contains_key(#[trigger] vehicle_type_lookup@[id]),
         forall|vt: VehicleTypeIdx| #[trigger] r@.contains_key(vt) ==> r@[vt] is None,
 //@first
-        broadcast use axiom_hm_collect;
+        broadcast use {axiom_hm_collect, lemma_enum_hits, lemma_touch_same_index};
 //@end
 
 //@frag model/src/json_serialisation/mod.rs fn create_depots : closure map#1 as frag_default_depot
